@@ -61,9 +61,14 @@ func Harness_C08_run() {
 		ch.in <- verifBadRecord(nondetChoice("badkind", 3))
 	}
 	// a batch whose (gated) notification is followed by another request
+	// (a call, or - a batch of notifications only - another notification)
 	mixed := gateNote && nnotes == 0 && nondetBool("mixed-batch")
 	if mixed {
-		ch.in <- tokArray([]json.RawMessage{verifReq("", "note"), verifReq("5", "again")})
+		if nondetBool("notes-only-batch") {
+			ch.in <- tokArray([]json.RawMessage{verifReq("", "note"), verifReq("", "n0")})
+		} else {
+			ch.in <- tokArray([]json.RawMessage{verifReq("", "note"), verifReq("5", "again")})
+		}
 		nnotes = 1
 	}
 	quiesce()
